@@ -1485,7 +1485,7 @@ def oracle_c04(run, ops, impl):
 
 
 PROPS["C04"] = {
-    "modules": ["NibiruProofs.C04", "NibiruProofs.SDBNested"],
+    "modules": ["NibiruProofs.C04", "NibiruProofs.SDBNested", "NibiruProofs.SDBObs"],
     "fact_obligations": ["fact_C04_onRunStart_sequence"],
     "runs": [{"model": "sdb", "n_quick": 400, "n_thorough": 8000, "nontrivial": r"^P:ACC="}],
     "oracle": oracle_c04,
@@ -1735,7 +1735,7 @@ def cross_oracle_c03(all_runs):
 
 PROPS["C03"] = {
     "cross_oracle": cross_oracle_c03,
-    "modules": ["NibiruProofs.C03", "NibiruProofs.SDBFrames", "NibiruProofs.SDBNested"],
+    "modules": ["NibiruProofs.C03", "NibiruProofs.SDBFrames", "NibiruProofs.SDBNested", "NibiruProofs.SDBObs"],
     "prefix": "C03_",
     "runs": [{"model": "gspecnib", "n_quick": 150, "n_thorough": 3000, "nontrivial": r"^P:"},
              {"model": "gspecgeth", "n_quick": 150, "n_thorough": 3000, "nontrivial": r"^P:"},
